@@ -6,40 +6,60 @@ PROPS["C08"] = dict(
     level_text="Metamorphic and reference-model property tests (rapidcheck, ASan/UBSan) at three levels: the attribute-set "
                "value (FilteredOrderedAttributeMap built through every constructor / AttributesProcessor::process from "
                "generated key-value lists over all 16 AttributeValue alternatives, re-spelled by stable permutations, "
-               "shadowed duplicates, C-string/view spellings and keys handed over as non NUL-terminated views; compared "
-               "with a last-wins std::map model filtered by the allow-list, with mutated near-miss sets, and through "
-               "AttributesHashMap), the instrument (MeterProvider, one instrument, at most one view with an attribute "
-               "filter, 1..2 delta/cumulative readers, Adds in many spellings over several collection cycles: the "
-               "reported series are exactly the distinct model maps with exactly their sums) and the storage "
-               "(SyncMetricStorage with explicit cardinality limits 2..10 and a MeterProvider with the default 2000: "
-               "Records over attribute-set pools larger than the limit, 1..4 collection cycles, 1..2 collectors). "
-               "Every explored case agreed with the model. Exploration is the right level: the domain (all attribute "
-               "lists x allow-lists x limits x collection histories) is unbounded, the oracle is cheap and exact, and "
-               "the defects of this kind sit at key-view boundaries, type-only differences, limit-1/limit/limit+1 and in "
-               "the merge of several intervals, which generated search reaches directly.",
-    technique="metamorphic relation (permutation / duplicates / spelling of one attribute set) + reference model map "
-              "(last wins, exact-key allow-list) + conservation through the overflow series per reader semantics "
-              "(delta per interval, cumulative running total); rapidcheck",
+               "shadowed duplicates, C-string/view spellings, keys handed over as non NUL-terminated views and by values "
+               "that are equal but not bit-identical (0.0 / -0.0 as a scalar and as an array element); compared with a "
+               "last-wins std::map model filtered by the allow-list, with mutated near-miss sets, and through "
+               "AttributesHashMap), the instrument (MeterProvider, one instrument reached through one or two handles, "
+               "zero, one or two views each with an attribute filter of its own, 1..2 delta/cumulative readers, Adds in "
+               "many spellings over several collection cycles: the reported series of every stream are exactly the "
+               "distinct model maps with exactly their sums) and the storage (SyncMetricStorage with explicit "
+               "cardinality limits 0..10 and a MeterProvider with the default 2000: Records - signed ones for up-down "
+               "counters - over attribute-set pools larger than the limit, allow-lists that merge several raw sets into "
+               "one, a caller that records {otel.metrics.overflow=true} itself, 1..4 collection cycles, 1..2 collectors; "
+               "next to it an AttributesHashMap of the same limit driven through each of its GetOrSetDefault / Set "
+               "overloads). Every explored case agreed with the model. Exploration is the right level: the domain (all "
+               "attribute lists x allow-lists x limits x collection histories) is unbounded, the oracle is cheap and "
+               "exact, and the defects of this kind sit at key-view boundaries, type-only and bit-only differences, "
+               "limit-1/limit/limit+1 and in the merge of several intervals, which generated search reaches directly.",
+    technique="metamorphic relation (permutation / duplicates / spelling / sign of a zero of one attribute set) + reference "
+              "model map (last wins, exact-key allow-list, set identity = the map with -0.0 read as 0.0) + hash equality "
+              "demanded from the model relation (not from the operator== under test) + conservation through the "
+              "overflow series per reader semantics (delta per interval, cumulative running total); rapidcheck",
     rule="Cases are choice streams decoded into (list A, re-spelling B, mutation C, key layouts, allow-list) or into "
          "(instrument/storage configuration, attribute-set pool, Record/Collect history).",
     assumptions=[
-        "{k=0.0} versus {k=-0.0} is an either-way pair at the value level (the statement does not say whether they are "
-        "equal maps); the series levels do not generate -0.0; NaN attribute values are not generated",
+        "0.0 and -0.0 are equal values (operator== of the value type), so {k=0.0} and {k=-0.0} - and arrays that differ "
+        "only in the sign of zero elements - are equal as key-to-value maps: they must compare equal, hash equally and "
+        "share one series (the unchanged tree does all three: std::hash<double> maps both zeros to one value); which of "
+        "the two zeros the shared series reports is not specified. NaN attribute values (not equal to themselves) are "
+        "not generated",
         "the bool stored with an allow-list key is always true (the meaning of false is not documented)",
         "this SDK version accepts an explicit cardinality limit only as SyncMetricStorage's constructor argument, so "
-        "explicit limits are exercised on SyncMetricStorage directly and the provider-level run uses the default 2000",
+        "explicit limits are exercised on SyncMetricStorage (and on AttributesHashMap) directly and the provider-level "
+        "run uses the default 2000",
         "limit semantics: at most `limit` series per report including the overflow series; a report that covers at most "
-        "limit-1 distinct sets must be exact and must not contain an overflow series; exactly `limit` distinct sets may "
-        "or may not use the overflow series",
+        "limit-1 distinct (filtered) sets must be exact and must not contain an overflow series; exactly `limit` "
+        "distinct sets may or may not use the overflow series; limit 1 therefore means: everything in the overflow "
+        "series; limit 0 is an either-way region for the count (the overflow series itself is the one series that "
+        "always exists: at most 1 series is accepted), conservation still holds",
         "a set with its own series may still have part of its measurements in the overflow series once several "
-        "intervals were merged (asserted as <=); inside one interval a set is never split",
-        "measurement values are non-negative whole numbers below 2^51 in the limit targets (floating sums are then "
-        "exact in any order); attribute sets equal to {otel.metrics.overflow=true} are not recorded by the caller",
+        "intervals were merged (asserted as <= for unsigned instruments, by record-number bit masks in the bit-valued "
+        "runs); inside one interval a set is never split",
+        "'the excess is folded': where the table of one interval is reported as it is (single delta collector, the "
+        "directly driven AttributesHashMap) exactly limit-1 sets keep their own series and the rest shares the overflow "
+        "series (which sets is not prescribed); for one-interval reports that went through the temporal merge "
+        "(cumulative reader, several readers) the same is asserted (finding C08-merge-folds-one-more - the merge "
+        "folded one set more than the excess - is fixed in /repo 57b5e59); reports that combine several intervals are only bounded and totalled",
+        "measurement values are whole numbers below 2^51 in magnitude in the limit targets (floating sums are then "
+        "exact in any order), negative ones only for up-down counters; the per-series upper bound is not asserted for "
+        "signed instruments",
+        "a caller that records the attribute set {otel.metrics.overflow=true} itself shares one series with the folded "
+        "excess: that series is only checked through the totals, and exactly when the limit is not reached",
         "a delta reader may omit, or send an all-zero point for, a series without measurements in the interval; a "
         "cumulative reader may omit an unchanged series at the instrument level, but every delivered report of the "
         "limit targets must total everything recorded (statement, last sentence)",
-        "one instrument per meter and at most one view per instrument (the C06 findings F7/F8 are not in play); "
-        "timestamps are not compared",
+        "two views on one instrument are two metric streams, each keyed by its own filtered sets; a second handle of an "
+        "identical instrument is the same instrument; timestamps are not compared",
         SC_NOTE,
     ],
     runs=[
